@@ -94,14 +94,20 @@ class RowCollector:
 
         :param str name: name of the sorting column
         """
-        ids = np.argsort(getattr(self, name))
-        if reverse: ids = ids[::-1]
         if self._array:
+            ids = np.argsort(getattr(self, name))
+            if reverse: ids = ids[::-1]
             for n, name in enumerate(self._columns):
                 setattr(self,name,getattr(self, name)[ids])
         else:
+            # lists are permuted as they are: going through numpy arrays would unify the types of the cells
+            # (3 -> '3' next to a string, 2**53+1 -> 9007199254740992.0 next to a float)
+            keys = getattr(self, name)
+            ids = sorted(range(len(keys)), key=keys.__getitem__)
+            if reverse: ids = ids[::-1]
             for n, name in enumerate(self._columns):
-                setattr(self,name,list(np.array(getattr(self, name))[ids]))
+                column = getattr(self, name)
+                setattr(self,name,[column[i] for i in ids])
             
     def size(self):
         """ Get number of items in columns
